@@ -260,7 +260,7 @@ func checkInput(s string, allChunkings bool) *nd.Violation {
 	return nil
 }
 
-var alphabet = []string{"a", "*", "_", "`", "~", ">", " ", "\n", "\t", "\u00a0", "\xff", "\u20ac", "\xe2\x82"} // U+00A0: multi-byte white space; U+20AC and its first two bytes: a complete and a truncated multi-byte character
+var alphabet = []string{"a", "*", "_", "`", "~", ">", " ", "\n", "\t", "\u00a0", "\xff", "\u20ac", "\xe2\x82", "<"} // U+00A0: multi-byte white space; U+20AC and its first two bytes: a complete and a truncated multi-byte character
 
 func stringsBody(maxLen int) nd.Body {
 	return func(c *nd.Ctx) nd.Result {
@@ -382,7 +382,7 @@ func init() {
 	drv.Register(&drv.Prop{
 		ID:    "C17",
 		Level: "exploration",
-		Rule: "every string over the 13-symbol alphabet {a * _ ` ~ > space \\n \\t U+00A0 \\xff U+20AC and the truncated sequence E2 82} up to the tier's length, decoded under EVERY byte-level chunking (2^(n-1) cut sets) through a reader that returns exactly the chosen pieces, plus fragment-assembled inputs and very long lines; " +
+		Rule: "every string over the 14-symbol alphabet {a * _ ` ~ > space \\n \\t U+00A0 \\xff U+20AC, the truncated sequence E2 82, and < (punctuation that means nothing to the grammar)} up to the tier's length, decoded under EVERY byte-level chunking (2^(n-1) cut sets) through a reader that returns exactly the chosen pieces, plus fragment-assembled inputs and very long lines; " +
 			"oracle: termination, no panic, concatenated token data == input, token/style/quote/info sequence identical to the single-read decoding, style bookkeeping laws. Non-trivial = distinct input containing at least one directive character.",
 		Assumptions: []string{"bufio.Scanner behaves as documented", "bytes outside the alphabet are not covered"},
 		Parts: func(tier string) []drv.Part {
